@@ -406,6 +406,20 @@ def S_C16b():
     return bad
 
 
+def S_C11a():
+    nib = _nib()
+    from nibabel.nifti1 import Nifti1Extension
+    img = nib.Nifti1Image(np.arange(24, dtype='i2').reshape(2, 3, 4), np.eye(4))
+    img.header.extensions.append(Nifti1Extension(6, b'hello'))
+    img.header.set_data_offset(352 + 16 + 32)
+    try:
+        im2 = nib.Nifti1Image.from_bytes(img.to_bytes())
+    except Exception:
+        return True
+    return [(e.get_code(), e.get_content()) for e in im2.header.extensions] != [(6, b'hello')] or \
+        not np.array_equal(np.asarray(im2.dataobj), np.asarray(img.dataobj))
+
+
 PROBES = {n: f for n, f in list(globals().items()) if n.startswith('S_C') and callable(f)}
 
 if __name__ == '__main__':
